@@ -79,6 +79,8 @@ def _rules_core(repo, tier):
         ('SO3_Log', ['SO3'], 'so3'), ('SE3_Log', ['SE3'], 'se3'), ('RxSO3_Log', ['RxSO3'], 'rxso3'), ('Sim3_Log', ['Sim3'], 'sim3')], floor=4))
     out.append(rule_pair(repo))
     out.append(rule_range(repo))
+    from ..limits import rule_limit
+    out.append(rule_limit(repo, 'C02.LIMIT', LOG_TARGETS, floor=11, decided_floor=11))
     out.append(rule_dtype(repo, 'C02.DTYPE', LOG_TARGETS + [(OP, 'SE3_Log.forward'), (OP, 'Sim3_Log.forward'), (OP, 'RxSO3_Log.forward')], floor=6))
     out.append(rule_dispatch(repo, 'C02.DT', 'Log', GROUPS, lambda G: G + '_Log', lambda G: ALG[G] + '_type', floor=6, wrapper='Log'))
     return out
@@ -200,4 +202,4 @@ def rules(repo, tier):
                                                       'before it is complete - a later call with the same object and other contents must not be answered from it',
                                                       ['pypose.lietensor.lietensor', 'pypose.lietensor.operation', 'pypose.lietensor.basics', 'pypose.lietensor.utils'], floor=3),
             rule_optional(repo, 'C02.OPT', ['pypose.lietensor.lietensor', 'pypose.lietensor.operation', 'pypose.lietensor.basics', 'pypose.lietensor.utils'])] + mode_rules(repo, 'C02', ['pypose.lietensor.lietensor', 'pypose.lietensor.operation', 'pypose.lietensor.basics', 'pypose.lietensor.utils']) + [rule_callsig(repo, 'C02.SIG', ['pypose.lietensor.lietensor', 'pypose.lietensor.operation', 'pypose.lietensor.basics', 'pypose.lietensor.utils']), rule_docsig(repo, 'C02.DOC', ['pypose.lietensor.lietensor', 'pypose.lietensor.operation', 'pypose.lietensor.basics', 'pypose.lietensor.utils'])] + [
-            rule_axisdefault(repo, 'C02.AXDEF', ['pypose.lietensor.lietensor', 'pypose.lietensor.operation', 'pypose.lietensor.basics', 'pypose.lietensor.utils', 'pypose.lietensor.convert', 'pypose.basics.ops'])]
+            rule_axisdefault(repo, 'C02.AXDEF', ['pypose.lietensor.lietensor', 'pypose.lietensor.operation', 'pypose.lietensor.basics', 'pypose.lietensor.utils', 'pypose.lietensor.convert', 'pypose.basics.ops']), __import__('sa.axisdefault', fromlist=['x']).rule_frontaxis(repo, 'C02.BAX', ['pypose.lietensor.lietensor', 'pypose.lietensor.operation', 'pypose.lietensor.basics', 'pypose.lietensor.utils', 'pypose.lietensor.convert'])]
